@@ -207,6 +207,11 @@ def plan(tier, seed):
     specs = enc.plan_heads(tier)
     for i, s in enumerate(specs):
         s.update(seed=seed, tier=tier, idx=i)
+    if tier == "quick":
+        # register-pair selector bytes completely (every ordered pair, both register orders): EX/MV r,r' and ADD/SUB r,r'
+        for j, op in enumerate((0xED, 0xFD, 0x44, 0x45, 0x46, 0x4C, 0x4D, 0x4E)):
+            specs.append({"prefixes": [0, 10], "ops": [op, op + 1], "seconds": "all", "seed": seed, "tier": tier,
+                          "idx": 900 + j})
     return specs
 
 
